@@ -72,6 +72,8 @@ pub struct Report {
     start: Instant,
     /// if Some, states is not derived from the number of distinct fingerprints
     pub states_override: Option<u64>,
+    /// wall-clock seconds spent outside this process on behalf of the check (Python side of C20)
+    pub wall_offset: f64,
 }
 
 pub fn tier() -> String {
@@ -107,6 +109,7 @@ impl Report {
             skipped: 0,
             start: Instant::now(),
             states_override: None,
+            wall_offset: 0.0,
         }
     }
 
@@ -253,7 +256,7 @@ impl Report {
             "level": self.level,
             "coverage": Value::Object(cov),
             "assumptions": self.assumptions,
-            "wall_s": self.start.elapsed().as_secs_f64(),
+            "wall_s": self.start.elapsed().as_secs_f64() + self.wall_offset,
             "violations": unlisted.len(),
         });
         let edir = format!("{}/evidence", verif);
